@@ -11,6 +11,7 @@ import PycfModel.Model.Policy
 import PycfModel.Model.Discover
 import PycfModel.Model.Cast
 import PycfModel.Model.Validators
+import PycfModel.Model.Dispatch
 import PycfModel.Generated.Net
 /-
 Line protocol driver: one JSON operation per input line, one JSON result per output line.
@@ -361,6 +362,28 @@ def runOp (j : Json) : Except String Json := do
       ("remove_colon", showO (Validators.removeColon v)),
       ("semi_strict_bool", showO (Validators.semiStrictBool v)),
       ("loose_network", showO (Validators.looseNetwork v))])
+  | "dispatch" =>
+    let res ← objMembers (← getJ j "resource")
+    let strict ← getBool j "strict"
+    let d ← getBool j "dedicated_ok"
+    let g ← getBool j "generic_ok"
+    let out := Dispatch.dispatch Generated.resourceClasses strict ⟨d, g⟩ res
+    let shallow := match (Dispatch.typeOf res).bind (Dispatch.classFor Generated.resourceClasses) with
+      | some row => Json.bool (Dispatch.shallowOK row res)
+      | none => Json.null
+    pure (Json.mkObj [("outcome", .str (match out with
+      | .dedicated c => c | .generic => "GenericResource" | .rejected => "rejected")), ("shallow_ok", shallow)])
+  | "filter" =>
+    let cs ← match j.getObjVal? "classes" with | .ok (.arr xs) => pure (xs.toList.filterMap fun x => match x with | .str s => some s | _ => none) | _ => pure []
+    let ts ← match j.getObjVal? "types" with | .ok (.arr xs) => pure (xs.toList.filterMap fun x => match x with | .str s => some s | _ => none) | _ => pure []
+    let rs ← match j.getObjVal? "resources" with
+      | .ok (.arr xs) => xs.toList.mapM fun r => do
+          let n ← getStr r "name"
+          let cl ← match r.getObjVal? "classes" with | .ok (.arr ys) => pure (ys.toList.filterMap fun y => match y with | .str s => some s | _ => none) | _ => pure []
+          let t := match r.getObjVal? "type" with | .ok (.str s) => some s | _ => none
+          pure (⟨n, cl, t⟩ : Dispatch.Parsed)
+      | _ => .error "resources missing"
+    pure (Json.mkObj [("names", strList (Dispatch.filterByType cs ts rs))])
   | "tokens" =>
     let t ← getStr j "text"
     let toks := Resolver.tokens t.toList
